@@ -2526,3 +2526,55 @@ Proof.
   - rewrite E1, <- mdef_defined. exact D1.
   - rewrite E2, <- mdef_defined. exact D2.
 Qed.
+
+(* ====================================================================== merge_so_format is exact on the asserted
+   string formats, for every format recogniser that satisfies the lattice ip >= ipv4, ipv6 and the pairwise
+   disjointness of unrelated formats (component lemma: formats are not part of [obj_frag]) *)
+Section FormatExact.
+  Variable re_match : ustring -> ustring -> bool.
+  Variable fmt_ok : ustring -> ustring -> bool.
+  Hypothesis Hsub4 : forall s, fmt_ok f_ipv4 s = true -> fmt_ok f_ip s = true.
+  Hypothesis Hsub6 : forall s, fmt_ok f_ipv6 s = true -> fmt_ok f_ip s = true.
+  Hypothesis Hdisj : forall x y s, is_string_format x = true -> is_string_format y = true ->
+                                   fmt_related x y = false -> fmt_ok x s = true -> fmt_ok y s = true -> False.
+
+  Local Notation vf := (Valid.valid_format fmt_ok).
+
+  Lemma vf_string_format o x s : is_string_format x = true -> vf o (Some x) (JStr s) = fmt_ok x s.
+  Proof.
+    intros H. unfold Valid.valid_format. rewrite H.
+    assert (E : int_format_range x = None).
+    { unfold is_string_format in H. apply mem_ustr_In in H. unfold string_format_names in H. simpl in H.
+      destruct H as [<-|[<-|[<-|[<-|[<-|[<-|[]]]]]]]; reflexivity. }
+    rewrite E. reflexivity.
+  Qed.
+
+  Theorem merge_fmt_exact o fa fb s :
+    asserted fa = true -> asserted fb = true ->
+    match merge_fmt fa fb with
+    | Some f => asserted f = true /\ vf o f (JStr s) = vf o fa (JStr s) && vf o fb (JStr s)
+    | None => vf o fa (JStr s) && vf o fb (JStr s) = false
+    end.
+  Proof.
+    destruct fa as [x|], fb as [y|]; simpl asserted; intros Ax Ay; unfold merge_fmt.
+    - rewrite !(vf_string_format o) by assumption.
+      destruct (ustr_eqb x f_ip && (ustr_eqb y f_ipv4 || ustr_eqb y f_ipv6)) eqn:T1.
+      + split; [exact Ay|]. rewrite (vf_string_format o y s Ay).
+        apply andb_true_iff in T1. destruct T1 as [Ex Ey]. apply m_ustr_eqb_eq in Ex. subst x.
+        destruct (fmt_ok y s) eqn:Fy; [|symmetry; apply andb_false_r]. rewrite andb_true_r. symmetry.
+        apply orb_true_iff in Ey. destruct Ey as [Ey|Ey]; apply m_ustr_eqb_eq in Ey; subst y; auto.
+      + destruct (ustr_eqb y f_ip && (ustr_eqb x f_ipv4 || ustr_eqb x f_ipv6)) eqn:T2.
+        * split; [exact Ax|]. rewrite (vf_string_format o x s Ax).
+          apply andb_true_iff in T2. destruct T2 as [Ey Ex]. apply m_ustr_eqb_eq in Ey. subst y.
+          destruct (fmt_ok x s) eqn:Fx; [|reflexivity]. simpl. symmetry.
+          apply orb_true_iff in Ex. destruct Ex as [Ex|Ex]; apply m_ustr_eqb_eq in Ex; subst x; auto.
+        * destruct (ustr_eqb x y) eqn:T3.
+          -- split; [exact Ax|]. rewrite (vf_string_format o x s Ax). apply m_ustr_eqb_eq in T3. subst y.
+             destruct (fmt_ok x s); reflexivity.
+          -- destruct (fmt_ok x s) eqn:Fx, (fmt_ok y s) eqn:Fy; try reflexivity.
+             exfalso. apply (Hdisj x y s Ax Ay); [|exact Fx|exact Fy]. unfold fmt_related. rewrite T1, T2, T3. reflexivity.
+    - split; [exact Ax|]. simpl. rewrite andb_true_r. reflexivity.
+    - split; [exact Ay|]. reflexivity.
+    - split; reflexivity.
+  Qed.
+End FormatExact.
